@@ -174,37 +174,38 @@ func (s *gsut) contents() []item {
 }
 
 // check: container misuse, multiset, heap order of the container.
-func (s *gsut) check(after string) bool {
+func (s *gsut) check(format string, a ...any) bool {
 	c := s.c
 	if c.Failed() {
 		return false
 	}
+	after := func() string { return fmt.Sprintf(format, a...) }
 	if b := s.h.misuse(); b != "" {
-		c.Failf("generic-misuse", "during %s golib called the container out of contract: %s", after, b)
+		c.Failf("generic-misuse", "during %s golib called the container out of contract: %s", after(), b)
 		return false
 	}
 	vals := s.contents()
 	if len(vals) != s.n {
-		c.Failf("generic-len", "after %s: the container holds %d elements, the multiset model has %d", after, len(vals), s.n)
+		c.Failf("generic-len", "after %s: the container holds %d elements, the multiset model has %d", after(), len(vals), s.n)
 		return false
 	}
 	s.tick++
 	for i, v := range vals {
 		if v.ID < 0 || v.ID >= len(s.key) || !s.in[v.ID] {
-			c.Failf("generic-not-member", "after %s: container[%d] = %v is not in the multiset model (contents %v)", after, i, v, vals)
+			c.Failf("generic-not-member", "after %s: container[%d] = %v is not in the multiset model (contents %v)", after(), i, v, iv(vals))
 			return false
 		}
 		if s.seen[v.ID] == s.tick {
-			c.Failf("generic-duplicate", "after %s: element %v appears twice in the container %v", after, v, vals)
+			c.Failf("generic-duplicate", "after %s: element %v appears twice in the container %v", after(), v, iv(vals))
 			return false
 		}
 		s.seen[v.ID] = s.tick
 		if v.K != s.key[v.ID] {
-			c.Failf("generic-value", "after %s: container[%d] = %v but the model has key %d", after, i, v, s.key[v.ID])
+			c.Failf("generic-value", "after %s: container[%d] = %v but the model has key %d", after(), i, v, s.key[v.ID])
 			return false
 		}
 		if i > 0 && s.ord.less(v, vals[(i-1)/2]) {
-			c.Failf("generic-order", "after %s: container[%d] = %v precedes its parent container[%d] = %v (order %s): %v violates the heap order", after, i, v, (i-1)/2, vals[(i-1)/2], s.ord.name, vals)
+			c.Failf("generic-order", "after %s: container[%d] = %v precedes its parent container[%d] = %v (order %s): %v violates the heap order", after(), i, v, (i-1)/2, vals[(i-1)/2], s.ord.name, iv(vals))
 			return false
 		}
 	}
@@ -227,19 +228,21 @@ func (s *gsut) init(keys []int, ord order, useMap bool) bool {
 	s.peak = s.n
 	s.ord = ord
 	s.h = newCont(useMap, items, ord.less)
-	return s.reinit(fmt.Sprintf("Init(%s container %v, %s)", s.h.kind(), items, ord.name))
+	return s.reinit("Init(%s container %v, %s)", s.h.kind(), iv(items), ord.name)
 }
 
-func (s *gsut) reinit(what string) bool {
+func (s *gsut) reinit(format string, a ...any) bool {
 	c := s.c
-	c.Logf("%s", what)
+	c.Logf(format, a...)
 	if !guard(c, "generic.Init", func() { heapz.Init[item](s.h) }) {
 		return false
 	}
-	c.Logf("  -> %v", s.contents())
+	if c.Logging() {
+		c.Logf("  -> %v", iv(s.contents()))
+	}
 	s.muts++
 	c.Add(s.pfx+"init", 1)
-	return s.check(what)
+	return s.check(format, a...)
 }
 
 func (s *gsut) push(key int) bool {
@@ -249,7 +252,9 @@ func (s *gsut) push(key int) bool {
 	if !guard(c, "generic.Push", func() { heapz.Push[item](s.h, it) }) {
 		return false
 	}
-	c.Logf("Push(h, %v) -> %v", it, s.contents())
+	if c.Logging() {
+		c.Logf("Push(h, %v) -> %v", it, iv(s.contents()))
+	}
 	s.in[it.ID] = true
 	s.n++
 	if s.n > s.peak {
@@ -257,7 +262,7 @@ func (s *gsut) push(key int) bool {
 	}
 	s.muts++
 	c.Add(s.pfx+"push", 1)
-	return s.check(fmt.Sprintf("Push(h, %v)", it))
+	return s.check("Push(h, %v)", it)
 }
 
 func (s *gsut) result(r any, op string) (item, bool) {
@@ -289,7 +294,9 @@ func (s *gsut) pop() bool {
 	if !guard(c, "generic.Pop", func() { r = heapz.Pop[item](s.h) }) {
 		return false
 	}
-	c.Logf("Pop(h) on %v -> %v; %v", before, r, s.contents())
+	if c.Logging() {
+		c.Logf("Pop(h) on %v -> %v; %v", iv(before), r, iv(s.contents()))
+	}
 	x, ok := s.result(r, "Pop(h)")
 	if !ok {
 		return false
@@ -298,13 +305,13 @@ func (s *gsut) pop() bool {
 	s.n--
 	s.muts++
 	c.Add(s.pfx+"pop", 1)
-	if !s.check(fmt.Sprintf("Pop(h) on %v", before)) {
+	if !s.check("Pop(h) on %v", iv(before)) {
 		return false
 	}
 	tie := false
 	for _, v := range s.contents() {
 		if s.ord.less(v, x) {
-			c.Failf("generic-pop-not-min", "Pop(h) on %v returned %v but the remaining %v precedes it (order %s)", before, x, v, s.ord.name)
+			c.Failf("generic-pop-not-min", "Pop(h) on %v returned %v but the remaining %v precedes it (order %s)", iv(before), x, v, s.ord.name)
 			return false
 		}
 		if !s.ord.less(x, v) {
@@ -328,20 +335,22 @@ func (s *gsut) remove(i int) bool {
 	if !guard(c, "generic.Remove", func() { r = heapz.Remove[item](s.h, i) }) {
 		return false
 	}
-	c.Logf("Remove(h, %d) on %v -> %v; %v", i, before, r, s.contents())
+	if c.Logging() {
+		c.Logf("Remove(h, %d) on %v -> %v; %v", i, iv(before), r, iv(s.contents()))
+	}
 	x, ok := s.result(r, fmt.Sprintf("Remove(h, %d)", i))
 	if !ok {
 		return false
 	}
 	if x != before[i] {
-		c.Failf("generic-remove-wrong", "Remove(h, %d) on %v returned %v, the element at index %d is %v", i, before, x, i, before[i])
+		c.Failf("generic-remove-wrong", "Remove(h, %d) on %v returned %v, the element at index %d is %v", i, iv(before), x, i, before[i])
 		return false
 	}
 	s.in[x.ID] = false
 	s.n--
 	s.muts++
 	c.Add(s.pfx+"remove", 1)
-	if !s.check(fmt.Sprintf("Remove(h, %d) on %v", i, before)) {
+	if !s.check("Remove(h, %d) on %v", i, iv(before)) {
 		return false
 	}
 	last := len(before) - 1
@@ -377,10 +386,12 @@ func (s *gsut) fix(i, newKey int) bool {
 	if !guard(c, "generic.Fix", func() { heapz.Fix[item](s.h, i) }) {
 		return false
 	}
-	c.Logf("Fix(h, %d) on %v -> %v", i, before, s.contents())
+	if c.Logging() {
+		c.Logf("Fix(h, %d) on %v -> %v", i, iv(before), iv(s.contents()))
+	}
 	s.muts++
 	c.Add(s.pfx+"fix", 1)
-	if !s.check(fmt.Sprintf("container[%d].K = %d; Fix(h, %d) on %v", i, newKey, i, before)) {
+	if !s.check("container[%d].K = %d; Fix(h, %d) on %v", i, newKey, i, iv(before)) {
 		return false
 	}
 	switch p := posOf(s.contents(), it.ID); {
@@ -413,15 +424,25 @@ func inRangeIndex(rng *ev.Rand, n int) int {
 	}
 }
 
-func genericCase(c *ev.Case) {
+func genericCase(c *ev.Case) { genericRun(c, false) }
+
+func genericDeepCase(c *ev.Case) { genericRun(c, true) }
+
+func genericRun(c *ev.Case, deep bool) {
 	rng := c.Rng
 	s := newGsut(c)
 	g := newKeygen(rng)
 	ord := pickOrder(rng)
-	if !s.init(initialKeys(rng, g, rng.Pick(0, 1, 2, 3, 6, 7, 8, 12, 15, 16, 31), ord), ord, rng.Chance(1, 3)) {
+	size := rng.Pick(0, 1, 2, 3, 6, 7, 8, 12, 15, 16, 31)
+	nops := rng.Pick(20, 50, 50, 50, 120)
+	if deep {
+		s.pfx = "deep/g_"
+		size = rng.Pick(255, 256, 600, 1023, 1024, 2100)
+		nops = rng.Pick(1000, 2500)
+	}
+	if !s.init(initialKeys(rng, g, size, ord), ord, rng.Chance(1, 3)) {
 		return
 	}
-	nops := rng.Pick(20, 50, 50, 50, 120)
 	phase := 0
 	for i := 0; i < nops; i++ {
 		if i%25 == 0 {
@@ -455,7 +476,7 @@ func genericCase(c *ev.Case) {
 					s.note('s', idx, it.K)
 				}
 			}
-			ok = s.reinit(fmt.Sprintf("Init(h) again on %v", s.contents()))
+			ok = s.reinit("Init(h) again on %v", iv(s.contents()))
 		default:
 			ok = s.push(g.next())
 		}
@@ -469,12 +490,12 @@ func genericCase(c *ev.Case) {
 		}
 	}
 	sw, ls := s.h.stats()
-	c.Add("generic/less_calls", ls)
-	c.Max("generic/max_swaps_in_case", sw)
+	c.Add(s.pfx+"less_calls", ls)
+	c.Max(s.pfx+"max_swaps_in_case", sw)
 	if s.muts >= 3 && s.peak >= 2 {
 		c.Distinct(s.hash)
 	}
 	if c.WantSample() {
-		c.Sample(fmt.Sprintf("generic: %s container, order %s, key mode %d, %d ops, %d elements created, peak length %d, %d swaps and %d comparisons logged, order and multiset checked after every call, drained", s.h.kind(), ord.name, g.mode, nops, len(s.key), s.peak, sw, ls))
+		c.Sample(fmt.Sprintf("generic (deep=%v): %s container, order %s, key mode %d, %d ops, %d elements created, peak length %d, %d swaps and %d comparisons logged, order and multiset checked after every call, drained", deep, s.h.kind(), ord.name, g.mode, nops, len(s.key), s.peak, sw, ls))
 	}
 }
